@@ -774,6 +774,49 @@ func checkClientRequestFlows(c *Ctx) {
 		}
 		c.check(ok, rule, "client:"+k[0]+"/ns-res-ctx-reach-the-request", c.P.fnPos(fn), "", "client."+k[0]+": "+detail)
 	}
+	// client.List / client.Watch hand the call on exactly once, with the caller's context and
+	// options, and return what they get (no retry with other options, no second attempt)
+	for _, k := range [][2]string{{"client.List", "list"}, {"client.Watch", "watch"}} {
+		fn := c.mustFunc("client", k[0])
+		if fn == nil {
+			continue
+		}
+		ps := pathsOf(c, fn)
+		ok := len(ps) == 1 && len(fn.Params) == 3
+		if ok {
+			pa := ps[0]
+			n := 0
+			var res *Term
+			for _, e := range pa.Effects {
+				switch {
+				case e.IsPure():
+				case e.Kind == "dyncall" || e.Kind == "call" || e.Kind == "invoke":
+					n++
+					res = e.Res
+					callee := e.Recv
+					if callee == nil && len(e.Res.A) > 0 {
+						callee = e.Res.A[0]
+					}
+					args := e.Args
+					if !(callee != nil && callee.IsRecvField(k[1])) || len(args) < 2 || !isParamT(args[len(args)-2], fn.Params[1].Name()) || !isParamT(args[len(args)-1], fn.Params[2].Name()) {
+						ok = false
+					}
+				default:
+					ok = false
+				}
+			}
+			if n != 1 || res == nil || pa.End.Kind != "return" || len(pa.End.Results) != 2 {
+				ok = false
+			} else {
+				for i, r := range pa.End.Results {
+					if !(r.K == "extract" && r.S == fmt.Sprint(i) && sameTerm(r.A[0], res)) {
+						ok = false
+					}
+				}
+			}
+		}
+		c.check(ok, rule, "client:"+k[0]+"/forwards-once-unchanged", c.P.fnPos(fn), "", "client."+k[0]+" is not a single forward of (ctx, opts) to ."+k[1]+" returning its results: a retry, a changed option or a second attempt changes where a watch resumes or what a list returns")
+	}
 	if fn := c.mustFunc("client", "ForResource"); fn != nil {
 		ps := pathsOf(c, fn)
 		ok := len(ps) == 1
